@@ -5,7 +5,8 @@ R-C15-2  every scalar parsed from proof bytes goes through Scalar::from_canonica
          on the decode path
 R-C15-3  the decoder's Ok is dominated by: degree byte through ExtensionDegree::try_from(u8); non-empty L and R; no leftover tuple
          element; empty chunk remainder
-R-C15-4  Serialize calls the encoder, Deserialize's visitor calls the decoder
+R-C15-4  Serialize calls the encoder, Deserialize's visitor calls the decoder, and neither adds anything: the decoder is given the visitor's
+         input as it is, the serializer emits the encoder's output as it is, none of the three serde functions has a rejection of its own
 R-C15-5  contradiction rule: the decoder refuses an empty L/R vector, so every other construction site of the proof type must
          establish a non-empty one
 """
@@ -16,7 +17,7 @@ from .common import guard_table
 
 LEVEL_TEXT = ('Static analysis (container-order model of the encoder, definition order and value terms of the decoder, guard normal forms, call graph). '
               'Decides that encoder and decoder agree on field order and element kinds, that scalars are parsed canonically, that the decoder\'s '
-              'acceptance guards are present, that serde delegates to the byte codec, and that every construction site of a proof establishes what the '
+              'acceptance guards are present, that serde delegates to the byte codec without a rejection or a slice of its own, and that every construction site of a proof establishes what the '
               'decoder demands, and that no rejection on the decode path other than the canonical-scalar parser and the degree tag looks at the '
               'content of the bytes. Does not decide the exact acceptance set over all byte strings nor byte-for-byte round-trip equality.')
 ASSUMPTIONS = ['Scalar::from_canonical_bytes rejects non-canonical encodings; FixedBytesRepr::{as,from}_fixed_bytes are mutually inverse',
